@@ -28,11 +28,12 @@ IsPrefixOf(p, s) == Len(p) <= Len(s) /\ SubSeq(s, 1, Len(p)) = p
 IsSuffixOf(p, s) == Len(p) <= Len(s) /\ SubSeq(s, Len(s) - Len(p) + 1, Len(s)) = p
 
 \* first index i >= from with p occurring at s[i..]; 0 when there is none
-RECURSIVE FindFrom(_, _, _)
+\* (set-based, not recursive: TLC evaluates deep recursion with growing
+\* arguments in quadratic time)
+MinOf(S) == CHOOSE x \in S : \A y \in S : x <= y
 FindFrom(s, p, from) ==
-  IF from + Len(p) - 1 > Len(s) THEN 0
-  ELSE IF SubSeq(s, from, from + Len(p) - 1) = p THEN from
-  ELSE FindFrom(s, p, from + 1)
+  LET c == {i \in from..(Len(s) - Len(p) + 1) : SubSeq(s, i, i + Len(p) - 1) = p}
+  IN  IF c = {} THEN 0 ELSE MinOf(c)
 Find(s, p) == FindFrom(s, p, 1)
 HasSub(s, p) == Find(s, p) # 0
 
